@@ -54,6 +54,8 @@ def parse_trace(path):
                     step["rkeys"][t[1]] = (int(t[2]), " ".join(t[4:]))
                 elif line.startswith("RDUMP "):
                     step["rkeys"] = {}
+                    t = line.split()
+                    step["t_applied"] = int(t[2]) if len(t) > 2 else step["t1"]
                 elif line.startswith("REC "):
                     step["recs"] = []
                     step["quiet"] = line.split()[3] == "quiet"
@@ -113,8 +115,17 @@ def judge_case(c):
             continue
         cmd = s["name"]
         prev_pri = last_pri
-        pri = logical(s["keys"], s["t0"], s["t1"], memory)
-        rep = logical(s["rkeys"], s["t0"], s["t1"])
+        # the replica applies the records after the primary has replied: a deadline that passes anywhere between
+        # the start of the command and the end of the application is "expired or not" depending on the instant
+        hi = max(s["t1"], s.get("t_applied", s["t1"]))
+        pri = logical(s["keys"], s["t0"], hi, memory)
+        rep = logical(s["rkeys"], s["t0"], hi)
+        if i > 0:
+            # ... also when the deadline was removed or changed by this very step (PERSIST racing the deadline)
+            for src in (c["steps"][i - 1]["keys"], c["steps"][i - 1].get("rkeys") or {}):
+                for k, (exp, _) in src.items():
+                    if exp != 0 and s["t0"] - 2 <= exp <= hi + 2:
+                        unjudged.add(k)
         diff = {}
         for k in set(pri) | set(rep):
             a, b = pri.get(k, "absent"), rep.get(k, "absent")
@@ -140,7 +151,11 @@ def judge_case(c):
             diverged = True
             opn, msg = s["rerr"][0]
             sig = "%s/unappliable:%s" % (cmd, opn)
-            if "UTF-8" in msg:
+            keys_of_recs = [r[1] for r in (s["recs"] or [])]
+            if any(keys_of_recs.count(k) >= 2 for k in keys_of_recs):
+                # the records of one command are delivered by racing goroutines (e.g. Del then SAdd of SUNIONSTORE)
+                sig = "FEED/reordered"
+            elif "UTF-8" in msg:
                 sig = "FEED/non-utf8-name:%s" % opn   # keys, fields and members are proto3 strings
             out.append({"case": c["id"], "step": stepno, "signature": sig, "text": msg[:200]})
             continue
@@ -165,7 +180,7 @@ def judge_case(c):
                 ks = tokstr(ktok)
                 if ks is not None and any(glob_match(p, ks) for p in PATTERNS):
                     want.append((opn, ktok))
-            if want != s["recs2"] and all(tokstr(r[1]) is not None for r in s["recs"]):
+            if sorted(want) != sorted(s["recs2"]) and all(tokstr(r[1]) is not None for r in s["recs"]):
                 out.append({"case": c["id"], "step": stepno, "signature": "FEED/filter",
                             "text": "pattern watcher %s received %s, expected %s" % (PATTERNS, s["recs2"][:4], want[:4])})
     return out
@@ -204,7 +219,7 @@ def directed(tier):
             [["ZADD", "k", "XX", "5", "a"]], [["ZADD", "k", "9", "a"], ["ZADD", "k", "GT", "2", "a"]], [["ZADD", "k", "1", "a"], ["ZADD", "k", "LT", "2", "a"]],
             [["ZADD", "k", "1", "a"], ["ZADD", "k", "NX", "2", "a"]], [["SET", "k", "v"], ["LSET", "k", "0", "x"]], [["RPUSH", "k", "a", "b"], ["LSET", "k", "7", "x"]],
             [["RPUSH", "k", "a", "b"], ["LPOPRPUSH", "k", "k"]], [["RPUSH", "k", "a", "b"], ["RPOPLPUSH", "k", "k"]], [["RPUSH", "k", "a"], ["LPOPRPUSH", "k", "k2"]],
-            [["SADD", "k", "a", "b"], ["SPOP", "k", "5"]], [["HSET", "k", "f", "x"], ["HINCRBY", "k", "f", "1"]], [["SET", "k", "v"], ["HINCRBYFLOAT", "k", "f", "1"]],
+            [["SADD", "k", "a", "b"], ["SPOP", "k", "5"]], [["HSET", "k", "f", "x"], ["HINCRBY", "k", "f", "1"]], [["HSET", "k", "f", "x"], ["HINCRBYFLOAT", "k", "f", "1"]], [["SET", "k", "v"], ["HINCRBYFLOAT", "k", "f", "1"]],
         ]
         for j, seq in enumerate(extra):
             steps = [feed]
